@@ -10,6 +10,7 @@ import (
 	"strings"
 
 	"golang.org/x/tools/go/ssa"
+	"golang.org/x/tools/go/types/typeutil"
 )
 
 func init() { register("C15", checkC15) }
@@ -511,6 +512,47 @@ func determinismSources(c *Check, p *Program, reach map[*ssa.Function]bool) {
 				}
 			}
 		}
+		// the sort key separates distinct files: it is the walked path itself (through a character replacement), not
+		// something that two files under different roots can share (a path relative to its root, a base name) — equal
+		// keys keep command-line order
+		fi := ir.Info
+		info := fi.Pkg.TypesInfo
+		keyOK, keyExpr := false, ""
+		ast.Inspect(fi.Decl.Body, func(n ast.Node) bool {
+			lit, ok := n.(*ast.FuncLit)
+			if !ok || len(lit.Type.Params.List) == 0 || len(lit.Type.Params.List[0].Names) == 0 {
+				return true
+			}
+			pathParam := info.Defs[lit.Type.Params.List[0].Names[0]]
+			if pathParam == nil || !isStringType(pathParam.Type()) {
+				return true
+			}
+			ast.Inspect(lit.Body, func(x ast.Node) bool {
+				cl, ok := x.(*ast.CompositeLit)
+				if !ok || namedStructName(info.TypeOf(cl)) != "pair" {
+					return true
+				}
+				for _, el := range cl.Elts {
+					kv, ok := el.(*ast.KeyValueExpr)
+					if !ok || types.ExprString(kv.Key) != "canonical" {
+						continue
+					}
+					keyExpr = types.ExprString(kv.Value)
+					e := ast.Unparen(kv.Value)
+					if call, isC := e.(*ast.CallExpr); isC && len(call.Args) == 3 {
+						if fn, _ := typeutil.Callee(info, call).(*types.Func); fn != nil && fn.FullName() == "strings.ReplaceAll" {
+							e = ast.Unparen(call.Args[0])
+						}
+					}
+					if id, isID := e.(*ast.Ident); isID && info.Uses[id] == pathParam {
+						keyOK = true
+					}
+				}
+				return true
+			})
+			return true
+		})
+		c.Ob("input-order/sort-key-is-the-file-path", "utils.WalkDeterministic", keyOK, r.pos(ir.Info.Decl.Pos()), "the key the collected files are sorted by is the walked path (modulo separator replacement): "+keyExpr)
 		c.Ob("input-order/walk-sorted", "utils.WalkDeterministic", sortPos != 0 && ret != 0 && lastLoop == ret, r.pos(ir.Info.Decl.Pos()), "collected paths are sorted on the canonical path before the result is built from them")
 	}
 	if ir := r.ir("internal/pure.Kernel.AddFilesFromPaths"); ir != nil {
